@@ -48,8 +48,6 @@ RULE = ('BFS to closure over (real server state, reference state) with %d client
         'merging; plus the two-representative differential check of the merge.  A transition is non-trivial when '
         'the event is refused, rejected by a validator, closes the session or resets a transaction.' % len(EVENTS))
 ASSUMPTIONS = ['one event per recv() segment (segmentation independence is C09)',
-               'STARTTLS is only offered to the search while no transaction is open and AUTH PLAIN in clear text follows '
-               'the implementation (both belong to C08)',
                'commands with non-UTF-8 arguments: only "error reply, no callback" is required',
                'fake TLS (transparent), fake PTR lookup, recording queue']
 
@@ -137,8 +135,6 @@ def judge_history(cfg, banner_v, hist):
 
 def event_menu(cfg, refkey_mail_open):
     for name, _ in EVENTS:
-        if name.startswith('STARTTLS') and refkey_mail_open:
-            continue
         yield name
 
 
@@ -241,10 +237,6 @@ def unmerged(cfg, res, depth, first=None):
     for f in firsts:
         for rest in itertools.product(names, repeat=depth - 1):
             hist = [(f, None)] + [(n, None) for n in rest]
-            if any(n.startswith('STARTTLS') for n, _ in hist[1:]):
-                # keep the C08 exclusion: no STARTTLS with an open transaction
-                if any(ref_mail_open(cfg, None, hist[:i]) for i in range(1, len(hist)) if hist[i][0].startswith('STARTTLS')):
-                    continue
             viols, key, obs, reached, closed, undef = judge_history(cfg, None, hist)
             res.evaluations += 1
             res.transitions += 1
